@@ -174,6 +174,8 @@ def run_po_task(prop, po_index, shape, tier, seed):
         import z3
         if po.strength == "B":
             return run_bounded_task(po, shape, tier, seed, rec, t0)
+        if po.strength == "X":
+            return run_exhaustive_task(po, shape, tier, seed, rec, t0)
         scen = {}
 
         def body(it, path):
@@ -283,6 +285,30 @@ def run_bounded_task(po, shape, tier, seed, rec, t0):
     return rec
 
 
+def run_exhaustive_task(po, shape, tier, seed, rec, t0):
+    """Exhaustive native evaluation of a finite domain (or a stated part of it) against an exact oracle.
+    The PO function gets a context dict and returns {clause: {"instances": n, "failures": [inputs,...], "undecided": k}}.
+    Reported as a bounded stand-in whose bound is the enumerated domain; never counted as proved."""
+    out = po.fn({"shape": shape, "tier": tier, "seed": seed})
+    clauses, failures = {}, []
+    total = 0
+    for name, r in out.items():
+        n, bad = int(r.get("instances", 0)), list(r.get("failures", []))
+        total += n
+        clauses[name] = {"kind": "exhaustive", "instances": n, "unsat": n - len(bad), "sat": len(bad), "unknown": int(r.get("undecided", 0)),
+                         "seconds": 0.0, "trivial": 0}
+        if bad:
+            failures.append({"clause": name, "kind": "exhaustive", "path": -1, "model": {}, "reproduced": True,
+                             "replay_inputs": bad[0], "replay_info": {"more": bad[1:5]},
+                             "verifier_output": f"native evaluation of clause {name} is False at {bad[0]}"})
+    rec.update({"paths": 0, "infeasible": 0, "unsupported": [] if total else ["exhaustive task enumerated nothing"], "clauses": clauses,
+                "failures": failures, "covers_expected": [], "functions": [],
+                "assumptions": {f"exhaustive native enumeration ({po.note})": 1},
+                "solver_s": 0.0, "feas_calls": 0, "vc_calls": 0, "unknown_feas": 0, "covers": {},
+                "native": {"ran": total, "rejected": 0, "clause_failures": [], "exceptions": []}, "wall_s": time.time() - t0})
+    return rec
+
+
 def ex_covers(ex, po):
     out = {}
     for lab in po.covers:
@@ -383,7 +409,7 @@ def summarise(prop, tier, seed, results, wall, only=None):
                 n_dis += 1
                 if r["strength"] == "S":
                     n_shape += 1
-                if r["strength"] == "B":
+                if r["strength"] in ("B", "X"):
                     n_bounded += 1
             elif c["unknown"] and name not in failed_clauses:
                 undecided.append(f"{r['po']}/{name}: solver unknown ({c.get('reason_unknown', '')})")
